@@ -1,8 +1,10 @@
 package harness
 
 import (
+	"bytes"
 	"testing"
 
+	segment "github.com/blugelabs/bluge_segment_api"
 	"pgregory.net/rapid"
 )
 
@@ -67,6 +69,18 @@ func c04Prop(st *CaseStats, fam int) func(t *rapid.T) {
 			}
 			if seg.ChunkMode() != c.Seg.(chunkModer).ChunkMode() || seg.ChunkMode() != c.Mode {
 				t.Fatalf("case %s %s: %s chunk mode %d, original %d, requested %d", sc, c.Desc, l.name, seg.ChunkMode(), c.Seg.(chunkModer).ChunkMode(), c.Mode)
+			}
+		}
+		if rapid.IntRange(0, 2).Draw(t, "failedPersistOfLoaded") == 0 {
+			for _, l := range []segment.Segment{mem, fil} {
+				_, _ = l.WriteTo(&failAfter{k: rapid.IntRange(0, 300).Draw(t, "failAt")}, nil)
+				again, err := Persist(l)
+				if err != nil {
+					t.Fatalf("case %s %s: re-persisting a loaded segment: %v", sc, c.Desc, err)
+				}
+				if !bytes.Equal(again, bs) {
+					t.Fatalf("case %s %s:\n  a loaded segment persisted after a failed persist no longer reproduces its file (first difference at byte %d of %d)", sc, c.Desc, firstDiff(again, bs), len(bs))
+				}
 			}
 		}
 		om, err := Observe(mem, ProbeFields, AllFacets)
